@@ -833,7 +833,7 @@ CONDITIONS = [
      'bound': 'all histories of <= 3 operations out of 25 (one slice per '
               'first operation), same assertions'},
     {'fn': 'interleaved', 'slices': list(range(27)), 'quick': 110,
-     'thorough': 300,
+     'thorough': 1500,
      'bound': 'two operations interleaved at a callback point: operation A '
               '(9 kinds: load of a valid / an invalid document from a string '
               'or from a stream, dumps, dumps_json with indent, dump and '
